@@ -1,12 +1,177 @@
-(* Props/C19.v — pinned statements for property C19 (std.format / % follow printf). *)
+(* Props/C19.v — pinned statements for property C19 (std.format and % follow printf-style
+   formatting).  Statements closed by [exact lemma], non-vacuity Examples, the part of the
+   goal that is not proved kept as a Definition, and Print Assumptions. *)
 From RJ Require Import Base.Outcome Base.F64 Model.Format Proofs.Format_proofs.
+From Coq Require Import Floats.SpecFloat.
 Local Open Scope N_scope.
 
-Theorem C19_pad_reaches_width_refuted : exists s w l, lenN (field_pad s w l) < w.
+(* every format string yields codes or one of the five format-string errors (truncated,
+   width / precision too large, missing precision digits, unknown conversion): no panic,
+   no divergence *)
+Theorem C19_format_parse_total : forall fmt,
+  match parse_format_codes fmt with
+  | Ok _ => True
+  | Err e => is_parse_err e = true
+  | _ => False
+  end.
+Proof. exact format_parse_total. Qed.
+
+(* for every format string and every (finite-number) argument, and whatever libm's log10
+   returns, std.format yields a string or an error: never a panic, never a loop *)
+Theorem C19_format_no_panic : forall lf fmt a, finite_args a ->
+  match format lf fmt a with Ok _ | Err _ => True | _ => False end.
+Proof. exact format_no_crash. Qed.
+
+(* an array argument is accepted only when it has exactly one item per conversion
+   (other than %%), per * width and per * precision; otherwise the outcome is an error
+   (by C19_format_no_panic it is not a panic) *)
+Theorem C19_arg_count_errors : forall lf parts rest used s,
+  format_array lf parts rest used = Ok s -> lenN rest = needed parts.
+Proof. exact format_array_count. Qed.
+
+(* a rendered field is never shorter than its width, counted in characters *)
+Theorem C19_pad_reaches_width : forall s w l, w <= lenN (field_pad s w l).
+Proof. exact pad_reaches_width. Qed.
+
+(* ... for every directive of the array machine (inline width, or * taken from the array)
+   and of the object machine *)
+Theorem C19_field_width_ok : forall lf c,
+  (forall rest used s rest' used', array_code lf c rest used = Ok (s, rest', used') ->
+     (forall v, fw c = Some (FInline v) -> v <= lenN s) /\
+     (forall x t v, fw c = Some FExternal -> rest = VNum x :: t -> try_to_u32 x = Some v -> v <= lenN s)) /\
+  (forall fs s v, object_code lf c fs = Ok s -> fw c = Some (FInline v) -> v <= lenN s).
+Proof.
+  intros lf c. split.
+  - intros rest used s rest' used' H. apply (array_code_spec lf) in H. tauto.
+  - exact (object_code_width lf c).
+Qed.
+
+(* zero flag / precision: at least min_chars characters, at least min_digits digits after the sign *)
+Theorem C19_decorate_min_width : forall digits neg mc md sg bl,
+  mc <= lenN (decorate_digits digits neg mc md sg bl) /\
+  lenN (sign_prefix neg sg bl) + md <= lenN (decorate_digits digits neg mc md sg bl) /\
+  exists pad, decorate_digits digits neg mc md sg bl = sign_prefix neg sg bl ++ repeatN 48 pad ++ digits.
+Proof. exact decorate_min_width. Qed.
+
+Theorem C19_render_int_min_width : forall neg mag mc md bl pl radix zp,
+  mc <= lenN (render_int neg mag mc md bl pl radix zp) /\
+  lenN (sign_prefix neg pl bl) + md <= lenN (render_int neg mag mc md bl pl radix zp).
+Proof. exact render_int_min_width. Qed.
+
+(* the radix loop, any radix >= 2, any magnitude: the digits denote the number, each is
+   below the radix, no leading zero *)
+Theorem C19_radix_digits_value : forall r n, 2 <= r ->
+  digits_value r (radix_digits r n) = n /\
+  Forall (fun d => d < r) (radix_digits r n) /\
+  (0 < n -> exists d t, radix_digits r n = d :: t /\ 0 < d).
+Proof. exact radix_digits_value. Qed.
+
+(* %o %x %X: sign, zeros, then (the # prefix and) exactly those digits *)
+Theorem C19_render_int_digits : forall neg mag mc md bl pl radix zp,
+  exists pad,
+    render_int neg mag mc md bl pl radix zp =
+    sign_prefix neg pl bl ++ repeatN 48 pad ++
+      (if mag =? 0 then [48] else zp ++ map (fun d => 48 + d) (radix_digits radix mag)).
+Proof. exact render_int_digits. Qed.
+
+(* %d %i %u: below 2^53 the digits are the exact integer *)
+Theorem C19_decimal_exact_below_2p53 : forall lf c fwv precv x n,
+  ctype c = CDecimal -> trunc_mag x = Some n -> n < 2 ^ 53 ->
+  do_format_code lf c fwv precv (VNum x) =
+  Ok (decorate_digits (dec_digits n) (is_neg_trunc x)
+        (if fl_zero (flags c) && negb (fl_left (flags c)) then fwv else 0)
+        (match prec c with Some _ => precv | None => 0 end)
+        (fl_plus (flags c)) (fl_blank (flags c))).
+Proof. exact decimal_exact_below_2p53. Qed.
+
+(* %f %F: for every finite double m*2^e and EVERY precision the digits are ip[.fp] with
+   exactly prec fraction digits, and the integer ip.fp is m*2^e*10^prec rounded to
+   nearest, ties to even (pure integer statement: D*den vs num) *)
+Theorem C19_fixed_digits_correct : forall s m e prec, (- 65535 <= e)%Z ->
+  exists ip fp,
+    capped_fixed (S754_finite s m e) prec = Ok (if prec =? 0 then ip else ip ++ 46 :: fp) /\
+    lenN fp = prec /\ 1 <= lenN ip /\ all_digits (ip ++ fp) /\
+    is_rhe (Z.of_N (str_value (ip ++ fp)))
+           (Z.pos m * 2 ^ (Z.max e 0) * 10 ^ (Z.of_N prec))%Z (2 ^ (Z.max (- e) 0))%Z.
+Proof. exact fixed_digits_correct. Qed.
+
+(* ... and [capped_fixed] is the digit string render_float_def decorates *)
+Theorem C19_fixed_is_rendered : forall value prec zp plus blank ensure_pt trim,
+  render_float_def value prec zp plus blank ensure_pt trim =
+  obind (capped_fixed (f_abs value) prec) (fun d =>
+  Ok (decorate_digits
+        (if (prec =? 0) && ensure_pt then d ++ [46]
+         else if negb (prec =? 0) && trim then
+                (if ensure_pt then trim_end_zeros d else strip_dot_suffix (trim_end_zeros d))
+              else d)
+        (is_neg value) zp 0 plus blank)).
+Proof. exact render_float_def_digits. Qed.
+
+(* %g %G: value-and-shape invariants only *)
+Theorem C19_g_shape : forall lf c fwv precv x,
+  (ctype c = CGLower \/ ctype c = CGUpper) -> f_is_finite x = true ->
+  exists d, do_format_code lf c fwv precv (VNum x) =
+            Ok (decorate_digits d (is_neg x)
+                  (if fl_zero (flags c) && negb (fl_left (flags c)) then fwv else 0) 0
+                  (fl_plus (flags c)) (fl_blank (flags c))).
+Proof. exact g_shape. Qed.
+
+(* the two defects found on the pinned tree, as facts about the code they were in *)
+Theorem C19_pad_bytes_refuted : exists s w l, lenN (field_pad_bytes s w l) < w.
 Proof. exact pad_reaches_width_refuted. Qed.
 
-Theorem C19_prec_limit_refuted : exists fmt a, is_panic (format_run fmt a) = true.
-Proof. exact prec_limit_refuted. Qed.
+Theorem C19_fmt_prec_limit : exists x p, is_panic (fmt_fixed x p) = true /\ is_panic (fmt_exp x p) = true.
+Proof. exact fmt_prec_limit. Qed.
 
-Print Assumptions C19_pad_reaches_width_refuted.
-Print Assumptions C19_prec_limit_refuted.
+(* NOT proved (kept as the goal): %e %E digits are the correctly rounded p+1 significant
+   digits of the exact value.  [exp_parts] computes them that way and is compared digit for
+   digit with the implementation on every run; the Coq proof (ilog10 bracket + carry) is
+   missing. *)
+Definition C19_goal_exp_digits : Prop := forall m e (p : N), (- 65535 <= e)%Z ->
+  let '(ds, E) := exp_parts (Z.pos m) e p in
+  lenN ds = p + 1 /\ all_digits ds /\
+  (10 ^ Z.of_N p <= Z.of_N (str_value ds) < 10 ^ (Z.of_N p + 1))%Z /\
+  (let k := (Z.of_N p - E)%Z in
+   2 * Z.abs (Z.of_N (str_value ds) * (2 ^ Z.max (- e) 0 * 10 ^ Z.max (- k) 0)
+              - Z.pos m * 2 ^ Z.max e 0 * 10 ^ Z.max k 0)
+   <= 2 ^ Z.max (- e) 0 * 10 ^ Z.max (- k) 0)%Z.
+
+(* ---- non-vacuity: the hypotheses are met by non-trivial values, and the model computes *)
+Example C19_nonvacuous :
+  (* "%-5s|" % "日本" is padded to five characters *)
+  format_run [37; 45; 53; 115; 124] (ASingle (VStr [26085; 26412])) = Ok [26085; 26412; 32; 32; 32; 124] /\
+  (* "%.70000f" % 1 renders: 1, the point, 70000 zeros *)
+  match format_run [37; 46; 55; 48; 48; 48; 48; 102] (ASingle (VNum (f_of_Z 1))) with
+  | Ok s => lenN s = 70002 | _ => False end /\
+  (* ties go to the even digit: %.2f of 0.125 and 0.375; %.0e of 2.5 *)
+  capped_fixed (f_of_Z_exp 1 (-3)) 2 = Ok [48; 46; 49; 50] /\
+  capped_fixed (f_of_Z_exp 3 (-3)) 2 = Ok [48; 46; 51; 56] /\
+  format_run [37; 46; 48; 101] (ASingle (VNum (f_of_Z_exp 5 (-1)))) = Ok [50; 101; 43; 48; 48] /\
+  (* an array that is too short / too long is an error *)
+  format_run [37; 100; 37; 100] (AArray [VNum (f_of_Z 1)]) = Err (ENotEnough 1) /\
+  format_run [37; 100] (AArray [VNum (f_of_Z 1); VNum (f_of_Z 2)]) = Err (ETooMany 1 2) /\
+  (* hypotheses of the theorems above are satisfiable *)
+  finite_args (AArray [VNum (f_of_Z 42); VStr [97]]) /\
+  trunc_mag (f_of_Z (-42)) = Some 42 /\ (- 65535 <= -1074)%Z /\
+  radix_digits 16 255 = [15; 15] /\
+  parse_format_codes [37; 40; 97; 41; 43; 48; 42; 46; 51; 108; 100] =
+    Ok [PCode {| mkey := Some [97]; flags := {| fl_alt := false; fl_zero := true; fl_left := false; fl_blank := false; fl_plus := true |};
+                 fw := Some FExternal; prec := Some (FInline 3); len_mod := Some LLowerL; ctype := CDecimal |}].
+Proof. vm_compute. repeat split; try reflexivity; try discriminate; repeat constructor. Qed.
+
+Print Assumptions C19_format_parse_total.
+Print Assumptions C19_format_no_panic.
+Print Assumptions C19_arg_count_errors.
+Print Assumptions C19_pad_reaches_width.
+Print Assumptions C19_field_width_ok.
+Print Assumptions C19_decorate_min_width.
+Print Assumptions C19_render_int_min_width.
+Print Assumptions C19_radix_digits_value.
+Print Assumptions C19_render_int_digits.
+Print Assumptions C19_decimal_exact_below_2p53.
+Print Assumptions C19_fixed_digits_correct.
+Print Assumptions C19_fixed_is_rendered.
+Print Assumptions C19_g_shape.
+Print Assumptions C19_pad_bytes_refuted.
+Print Assumptions C19_fmt_prec_limit.
+Print Assumptions C19_nonvacuous.
